@@ -59,7 +59,8 @@ type RunInfo struct {
 	States     []string       // state digests visited
 	Counters   map[string]int // fault kinds fired, probes, ...
 	Steps      uint64
-	Vacuous    bool // the run never reached the oracle
+	OutDigest  string // C07: digest of what the reference execution rendered (compared across processes)
+	Vacuous    bool   // the run never reached the oracle
 	Sample     interface{}
 }
 
